@@ -3,7 +3,7 @@
  "name": "validate_entry_block",
  "props": ["C06"],
  "level": "U",
- "tier": "wip",
+ "tier": "quick",
  "harness": "h_validate_entry_block",
  "enforce": ["ext2fs_validate_entry"],
  "loop_contracts": true,
